@@ -83,13 +83,12 @@ theorem img_vars_lt' {tmpl : Term} {N : Nat} {env : Env} {σ : Subst} {π : Nat 
 /-- **a clause whose head is matched by the goal** (`img g = head θ0`), all variables of the body
     occurring in the head: the reference's frames are the body under θ0 -/
 theorem altRel_match {fl : Bool} {tmpl : Term} {N : Nat} {env : Env} {σ : Subst} {π : Nat → Nat} {D : Nat → Prop}
-    {nv d : Nat} {g c : Term} {θ0 : Subst} {Fs : List SLD.Frame}
+    {nv d : Nat} {g c : Term} {θ0 : Subst} {Fs : List SLD.Frame} (ls : List Nat)
     (hW : SimW tmpl N env σ π D nv) (hgD : InD D g) (hcl : clauseC fl c = true) (hkey : headKey c = goalKey g)
     (hg : img σ π g = (SLD.headBody c).1.subst θ0)
     (hbv : ∀ x, (SLD.headBody c).2.hasVar x = true → (SLD.headBody c).1.hasVar x = true)
-    (hFs : Forall2 (fun bg fr => ∃ l, fr = SLD.Frame.goal (bg.subst θ0) l ∧ (bg = .atom "!" → l = d))
-      (SLD.conjuncts (SLD.headBody c).2) Fs) :
-    AltRel fl σ π D nv d g c (some (.frames Fs)) := by
+    (hFs : FrRel (fun bg => bg.subst θ0) d (SLD.conjuncts (SLD.headBody c).2) Fs) :
+    AltRel fl σ π D nv d g c (some (.frames (Fs ++ ls.map skipF))) := by
   have hcvh : ∀ x, CV c x → (SLD.headBody c).1.hasVar x = true := by
     rintro x (hx | hx)
     · exact hx
@@ -105,7 +104,7 @@ theorem altRel_match {fl : Bool} {tmpl : Term} {N : Nat} {env : Env} {σ : Subst
     rw [← hg] at hz
     exact img_vars_lt' hW hgD hz
   refine .frames (fun x => nv + x) (nv + SLD.maxVar (SLD.headBody c).1) (tauM (SLD.headBody c).1 θ0 (fun x => nv + x))
-    hcl hkey (Nat.le_add_right _ _)
+    ls hcl hkey (Nat.le_add_right _ _)
     (fun x y hx hy hxy => hinj x y (hcvh x hx) (hcvh y hy) hxy)
     (fun x u _ hu => by
       have := hW.bnd u hu
@@ -121,9 +120,9 @@ theorem altRel_match {fl : Bool} {tmpl : Term} {N : Nat} {env : Env} {σ : Subst
       rw [tauM_κ hinj (hcvh x hx)] at hz
       exact hlt z (hasVar_subst_mpr θ0 z x _ (hcvh x hx) hz))
     ?_
-  refine Forall2.imp_mem hFs ?_
-  rintro bg hbg fr ⟨l, rfl, hl⟩
-  refine ⟨l, ?_, hl⟩
+  refine hFs.congr ?_
+  intro bg hbg
+  show bg.subst θ0 = _
   rw [tauM_rename hinj (fun x hx => hbv x (conjuncts_vars hbg hx))]
 
 /-! ### the control clauses of bootstrap.pl -/
